@@ -1192,6 +1192,14 @@ namespace
                     fb(env.dports.at(std::stol(l.pos.at(2))));
                     continue;
                 }
+                if (spec_of(fbid).kind == "dlyl")
+                {
+                    // bind <id> <a>,<b>: the delayed two-element list is resolved to the list assembled from ports a and b
+                    auto &d  = *static_cast<decltype(delayed_binding<L2>(w)) *>(env.feedbacks.at(fbid).get());
+                    auto  ab = split(l.pos.at(2), ',');
+                    d(stdlib::to_tsl<L2>(w, resolve(env, ab.at(0)), resolve(env, ab.at(1))));
+                    continue;
+                }
                 if (spec_of(fbid).kind == "dly")
                 {
                     auto &d = *static_cast<decltype(delayed_binding<TS<Int>>(w)) *>(env.feedbacks.at(fbid).get());
@@ -1213,7 +1221,7 @@ namespace
             const std::string kind = l.pos.at(2);
             NodeSpec         &sp   = spec_of(id);
             std::vector<P>    in;
-            if (kind != "drec" && kind != "elem3" && kind != "skeys" && kind != "srec" && kind != "map" && kind != "reduce" && kind != "rrec" && kind != "mesh" && kind != "elem" && kind != "dite")
+            if (kind != "drec" && kind != "lsuml" && kind != "elem3" && kind != "skeys" && kind != "srec" && kind != "map" && kind != "reduce" && kind != "rrec" && kind != "mesh" && kind != "elem" && kind != "dite")
             {
                 for (auto &r : sp.ins) { in.push_back(resolve(env, r)); }
             }
@@ -1445,6 +1453,15 @@ namespace
                 env.ports.emplace(id, (*static_cast<FB *>(h.get()))());
                 env.feedbacks[id] = h;
             }
+            else if (kind == "dlyl")
+            {
+                // delayed binding of a whole two-element list: its consumer can be wired before the producers of the elements
+                using DB = decltype(delayed_binding<L2>(w));
+                std::shared_ptr<void> h = std::make_shared<DB>(delayed_binding<L2>(w));
+                env.lports.emplace(id, (*static_cast<DB *>(h.get()))());
+                env.feedbacks[id] = h;
+            }
+            else if (kind == "lsuml") { env.ports.emplace(id, wire<VLSum>(w, sid, env.lports.at(std::stol(sp.ins.at(0))))); }
             else if (kind == "dly")
             {
                 // delayed binding: a forward reference resolved by a later `bind`; it is NOT a feedback
